@@ -1,4 +1,3 @@
--- FALLBACK copy (documented constants; used only when the translator does not recognise the source)
 -- GENERATED from alg/crc32c.c by tools/extractors/c01.py on every run; do not edit
 namespace Percival.Gen.Crc32c
 /-- the constant xored in by times256 -/
